@@ -12,7 +12,7 @@ EXTENDS Integers, Sequences, FiniteSets, TLC, Json
 
 CONSTANTS Hosts, Paths, Names, Values, HistDepth
 \* URL hosts may carry a port; HostOf strips it
-HostOf(h) == CASE h = "a.test:8080" -> "a.test" [] OTHER -> h
+HostOf(h) == CASE h = "a.test:8080" -> "a.test" [] h = "[2001:db8::1]:8080" -> "[2001:db8::1]" [] OTHER -> h
 PlainHosts == {HostOf(h) : h \in Hosts}
 
 D_Paths == { <<"/">>, <<"/","a">>, <<"/","a","p","i">>, <<"/","a","p","i","/","x">> }
